@@ -5,15 +5,19 @@ Import ListNotations.
 
 Inductive impl_out := IOk (r : list Q) | IValueErr | IOtherErr.
 
-Record case1 := { k_m : pmode; k_d : direction; k_c : Q; k_cast : bool;
+Record case1 := { k_strict : bool; k_m : pmode; k_d : direction; k_c : Q; k_cast : bool;
                   k_arr : list Q; k_nout : nat; k_off : Z; k_out : impl_out }.
 
 Definition Qs_eq := Qsclose 0 0.
 
 (* model = implementation (outputs exactly, errors as an enum); and, on the
    inputs the theorems speak about, model = index-formula reference *)
+(* [strict]: the variant of resize_array that validates the offset range (proposed
+   fix for finding offset-out-of-range-accepted); measured by the harness *)
+Definition off_in_range (n n_out : nat) (off : Z) : bool := (n =? n_out)%nat || offset_ok n n_out off.
 Definition check1 (k : case1) : bool :=
-  let r := resize1 (k_m k) (k_d k) (k_c k) (k_cast k) (k_arr k) (k_nout k) (k_off k) in
+  let r := if k_strict k && negb (off_in_range (length (k_arr k)) (k_nout k) (k_off k)) then ValueErr
+           else resize1 (k_m k) (k_d k) (k_c k) (k_cast k) (k_arr k) (k_nout k) (k_off k) in
   match r, k_out k with
   | Ok r, IOk r' => Qs_eq r' r
   | ValueErr, IValueErr => true
@@ -31,15 +35,21 @@ Definition check1 (k : case1) : bool :=
 
 (* ---- N-d arrays ---- *)
 From Verif Require Import Lib.Axis C16.ModelNd.
-Record caseN := { n_m : pmode; n_d : direction; n_c : Q; n_cast : bool;
+Record caseN := { n_strict : bool; n_m : pmode; n_d : direction; n_c : Q; n_cast : bool;
                   n_ishape : list nat; n_arr : list Q; n_oshape : list nat; n_offs : list Z;
                   n_out : impl_out }.
 
 (* (1) the in-place N-d model = implementation (outputs exactly, errors as enum);
    (2) on admissible configurations the separable composition of 1-d resizes
        gives the same array *)
+Fixpoint offs_in_range (ish osh : list nat) (offs : list Z) : bool :=
+  match ish, osh, offs with
+  | a :: i', b :: o', f :: f' => off_in_range a b f && offs_in_range i' o' f'
+  | _, _, _ => true
+  end.
 Definition checkN (k : caseN) : bool :=
-  let r := resizeN (n_m k) (n_d k) (n_c k) (n_cast k) (n_ishape k) (n_arr k) (n_oshape k) (n_offs k) in
+  let r := if n_strict k && negb (offs_in_range (n_ishape k) (n_oshape k) (n_offs k)) then ValueErr
+           else resizeN (n_m k) (n_d k) (n_c k) (n_cast k) (n_ishape k) (n_arr k) (n_oshape k) (n_offs k) in
   match r, n_out k with
   | Ok r, IOk r' => Qs_eq r' r
   | ValueErr, IValueErr => true
@@ -58,7 +68,7 @@ Definition checkN (k : caseN) : bool :=
 
 (* ---- ResizingOperator: range construction, offset, call / adjoint / inverse ---- *)
 From Verif Require Import C16.ModelOp.
-Record caseOp := { o_fixed : bool; o_m : pmode; o_c : Q;
+Record caseOp := { o_fixed : bool; o_adjguard : bool; o_m : pmode; o_c : Q;
                    o_dom : list (Q * Q * Z * (bool * bool));        (* min, max, n, nodes_on_bdry *)
                    o_nnew : list Z; o_off : list (option Z); o_flags : list (bool * bool);
                    o_rmin : list Q; o_rmax : list Q; o_rcs : list Q; o_offset : list Z;
@@ -100,7 +110,11 @@ Definition checkOp (k : caseOp) : bool :=
   && Qsclose optol 0 (o_rcs k) (map cell_side axes)
   && Zeqs (o_offset k) offs
   && out_eq (resizeN (o_m k) Forward (o_c k) true ish (o_x k) osh offs) (o_fx k)
-  && (if linear then out_eq (resizeN (o_m k) Adjoint 0 true osh (o_y k) ish offs) (o_ay k)
+  && ((* [o_adjguard]: this operator's .adjoint is refused because a space is not uniformly
+         weighted -- only in the variant of the code with the proposed fix for finding
+         adjoint-nodes-on-bdry; measured by the harness (is_uniformly_weighted of both spaces) *)
+      if linear && negb (o_adjguard k)
+      then out_eq (resizeN (o_m k) Adjoint 0 true osh (o_y k) ish offs) (o_ay k)
       else match o_ay k with IOtherErr => true | _ => false end)
   && match o_fx k with
      | IOk fx => out_eq (resizeN (o_m k) Forward (o_c k) true osh fx ish offs) (o_inv k)
